@@ -5,7 +5,7 @@
 //
 // Deterministic single-threaded replay on the real headers: the competing producer is run from inside the global operator new that
 // push() calls for its node, i.e. exactly between the load of t->next and the CAS on it; the second allocation is made to fail.
-//   g++ -std=c++17 -I /repo native_push_throw_leak.cpp -pthread
+//   g++ -std=c++17 -fno-access-control -I /repo native_push_throw_leak.cpp -pthread   (-fno-access-control only for sizeof(Q::node))
 // exit 0: the element is still owned by somebody after the exception (caller or queue), exit 1: leaked
 #include <xenium/ramalhete_queue.hpp>
 #include <xenium/reclamation/generic_epoch_based.hpp>
